@@ -55,7 +55,13 @@ def run_for(ctx, prop):
                               'obligations': len(r['obligations']), 'owner': owner,
                               'discharged': sum(1 for o in r['obligations'] if o['status'] == 'discharged'),
                               'seconds': round(r['seconds'], 2),
+                              'assumed_contracts_used': sorted(r.get('assumed_contracts_used', {}).keys()),
+                              'assumed_clauses': r.get('assumed_clauses', []),
                               'vacuity_probes': {p['name'].split(':probe:')[1]: p['result'] for p in r['probes']}})
+        for aq, anote in r.get('assumed_contracts_used', {}).items():
+            t_ = 'ASSUMED contract of %s (used by the proof of %s, not verified): %s' % (aq, q, anote)
+            if not any(x.startswith('ASSUMED contract of %s ' % aq) for x in ctx.trusted):
+                ctx.trusted.append(t_)
         for p in r['probes']:
             if p['name'].endswith(':probe:entry') and p['result'] == 'refutable':
                 raise RuntimeError('contract of %s has a contradictory precondition (vacuity guard)' % q)
